@@ -143,9 +143,9 @@ def run_one(ck, prog):
         init_ok = False
         for b in fn["blocks"]:
             for i, s in enumerate(b["stmts"]):
-                if s["k"] == "assign" and not s["dst"].get("p") and ctx.prov.names.get(s["dst"]["l"]) == "initialized":
+                if s["k"] == "assign" and not s["dst"].get("p"):
                     e = ctx.prov.rvalue(s["rv"], (b["id"], i))
-                    if isinstance(e, tuple) and e[0] == "bin" and e[1] == "Sub" and mentions(e[2], ctx.prov, lambda z: z[0] == "call" and (z[1] or "").endswith("initialized_len")) and \
+                    if isinstance(e, tuple) and e[0] == "bin" and e[1] in ("Sub", "SubWithOverflow") and mentions(e[2], ctx.prov, lambda z: z[0] == "call" and (z[1] or "").endswith("initialized_len")) and \
                             mentions(e[3], ctx.prov, lambda z: z[0] == "call" and (z[1] or "").endswith("filled_len")):
                         init_ok = True
         ck.ob("C15.2", "initialized=initialized_len-filled_len", init_ok, fn=fn["path"], detail="the carried `initialized` count must be initialized_len() - filled_len()")
